@@ -144,3 +144,28 @@ Theorem C13_v1_layout_scale_partial :
       (n_ind (scale_ind k x) ?= n_ind (scale_ind k y))%N = (n_ind x ?= n_ind y)%N).
 Proof. exact (conj v1_scale v1_scale_order). Qed.
 Print Assumptions C13_v1_layout_scale_partial.
+
+(* ---- Colang 1.0 with the continuation join of get_numbered_lines (trailing backslash / " or"):
+   `pre_c`; None = the IndexError the code raises on a dangling " or" / lone backslash ---- *)
+
+(* trailing whitespace on ANY physical lines, continuation lines included, changes nothing *)
+Theorem C13_v1_layout_trailing_ws_cont :
+  forall ls ls',
+    Forall2 (fun l l' => exists ws, forallb is_wsc ws = true /\ l' = (l ++ ws)%list) ls ls' ->
+    pre_c ls' = pre_c ls.
+Proof. exact v1_trailing_ws_cont. Qed.
+Print Assumptions C13_v1_layout_trailing_ws_cont.
+
+(* PARTIAL (as above): scaling multiplies the recorded indentation of every statement by k and
+   changes nothing else - the join ignores the indentation of continuation lines *)
+Theorem C13_v1_layout_scale_cont_partial :
+  forall k ls, pre_c (map (scale_line k) ls) = option_map (map (scale_ind k)) (pre_c ls).
+Proof. exact v1_scale_cont. Qed.
+Print Assumptions C13_v1_layout_scale_cont_partial.
+
+(* without continuation markers the two models coincide, so C13_v1_layout_blank applies there;
+   a blank line INSIDE a continued statement is appended by the join and is not harmless *)
+Theorem C13_v1_cont_agrees :
+  forall ls, forallb no_cont ls = true -> pre_c ls = Some (pre ls).
+Proof. exact v1_cont_agrees. Qed.
+Print Assumptions C13_v1_cont_agrees.
